@@ -141,7 +141,13 @@ func (t *fn) run() *FuncResult {
 	sig := obj.Type().(*types.Signature)
 	out := &FuncResult{OK: true, Sig: &Sig{}}
 	if sig.Variadic() {
-		t.reject(fd, "variadic function is outside the subset")
+		// `f(a, xs ...E)`: inside f, xs is an ordinary slice parameter of type []E (Go spec, "Passing
+		// arguments to ... parameters"); the translated function takes that slice
+		last := sig.Params().At(sig.Params().Len() - 1)
+		if _, err := t.goType(last.Type()); err != nil {
+			t.reject(fd, "variadic function is outside the subset (%v)", err)
+		}
+		t.notes = append(t.notes, fmt.Sprintf("variadic parameter `%s ...E` is the slice parameter `%s : []E` (a call `f(a, b)` passes the list [a, b], a call without them the empty list)", last.Name(), last.Name()))
 	}
 	// type parameters
 	addTP := func(tps *types.TypeParamList) {
@@ -196,6 +202,12 @@ func (t *fn) run() *FuncResult {
 			ptr = true
 		}
 		rty, err := t.goType(rt)
+		if err != nil && t.recvUnused(rv) {
+			// the body never mentions the receiver: the method is a function of its parameters
+			t.notes = append(t.notes, fmt.Sprintf("the receiver `%s` (type outside the subset) is never mentioned in the body: dropped, the method is translated as a function of its parameters", types.TypeString(rv.Type(), func(pk *types.Package) string { return pk.Name() })))
+			out.Sig.RecvDropped = true
+			goto params
+		}
 		if err != nil {
 			t.reject(fd, "receiver: %v", err)
 		}
@@ -216,10 +228,28 @@ func (t *fn) run() *FuncResult {
 		t.recvPtr = ptr
 		out.Sig.Params = append(out.Sig.Params, Param{Name: ln, Code: structCode(rty), Lean: rty.lean()})
 	}
+params:
 	// parameters
 	for i := 0; i < sig.Params().Len(); i++ {
 		p := sig.Params().At(i)
 		pt, err := t.goType(p.Type())
+		if pp, isPtr := p.Type().(*types.Pointer); isPtr && err != nil {
+			if _, isSl := pp.Elem().Underlying().(*types.Slice); isSl {
+				st, serr := t.goType(pp.Elem())
+				if serr != nil {
+					t.reject(fd, "parameter %s: %v", p.Name(), serr)
+				}
+				x, why := t.ptrSliceShape(p)
+				if x == nil {
+					t.reject(fd, "parameter %s: pointer to a slice is translated only when the body reads it once (`x := *%s`), stores it once as its last statement (`*%s = x`) and never returns early: %s", p.Name(), p.Name(), p.Name(), why)
+				}
+				if t.ptrSlice == nil {
+					t.ptrSlice, t.ptrAlias = map[types.Object]*ty{}, map[types.Object]types.Object{}
+				}
+				t.ptrSlice[p], t.ptrAlias[x] = st, p
+				pt, err = st, nil
+			}
+		}
 		gp := Param{Name: p.Name(), GoType: types.TypeString(p.Type(), func(pk *types.Package) string { return pk.Name() })}
 		if fsig, isFn := p.Type().Underlying().(*types.Signature); isFn {
 			ft, ferr := t.funcParamTy(fsig)
@@ -318,6 +348,7 @@ func (t *fn) run() *FuncResult {
 	recvOut := t.recvOut
 	// written slice parameters (in-out): decided up front as well
 	t.findInOut(sig)
+	t.addPtrSliceInOut(sig)
 	nInOut := len(t.inout)
 	for _, o := range t.inout {
 		for i := 0; i < sig.Params().Len(); i++ {
@@ -345,6 +376,10 @@ func (t *fn) run() *FuncResult {
 		if len(others) > 0 {
 			pre = "PRECONDITION (established at every call site inside translated code, ASSUMED for outside callers): the backing array of `" + o.Name() +
 				"` overlaps that of no other argument (" + strings.Join(others, ", ") + ")"
+		}
+		if st := t.ptrSlice[o]; st != nil {
+			t.notes = append(t.notes, fmt.Sprintf("pointer-to-slice parameter `%s`: translated as an in-out list `%s : %s` (the value of `*%s` before the call; its value after the call is returned after the results; its length may change). The body reads `*%s` once into a local and stores the local back as its last statement, so the local is the only live name of the caller's slice in between. Slice bounds are checked against len (cap = len as everywhere): `x[:k]` with len < k <= cap panics here and not in Go; %s", o.Name(), o.Name(), st.lean(), o.Name(), o.Name(), pre))
+			continue
 		}
 		t.notes = append(t.notes, fmt.Sprintf("in-out slice parameter `%s`: written by the function, so its final value is returned after the results (state passing; its length never changes); %s", o.Name(), pre))
 	}
@@ -700,6 +735,8 @@ func parserFor(code string, inst map[string]string) string {
 			return "(fun s => (GoSem.parseInt s).map (GoSem.swapMenu (α := " + lt + ")))"
 		}
 		return ""
+	case strings.HasPrefix(code, "slist:"):
+		return structListParser(code, inst)
 	case strings.HasPrefix(code, "u"):
 		return "GoSem.parseBV " + code[1:]
 	case strings.HasPrefix(code, "i"):
@@ -728,6 +765,8 @@ func printerFor(code string, inst map[string]string) string {
 		return "GoSem.showUnit"
 	case code == "bytes" || code == "str":
 		return "GoSem.showBytes"
+	case strings.HasPrefix(code, "slist:"):
+		return structListPrinter(code, inst)
 	case strings.HasPrefix(code, "u"):
 		return "GoSem.showBV"
 	case strings.HasPrefix(code, "i"):
@@ -944,3 +983,71 @@ func runTransCase(r *FuncResult) string {
 }
 
 var _ = token.NoPos
+
+// recvUnused: no identifier in the body refers to the receiver variable.
+func (t *fn) recvUnused(rv *types.Var) bool {
+	used := false
+	ast.Inspect(t.decl.Body, func(m ast.Node) bool {
+		if id, ok := m.(*ast.Ident); ok && t.pkg.info.ObjectOf(id) == types.Object(rv) {
+			used = true
+		}
+		return !used
+	})
+	return !used
+}
+
+// addPtrSliceInOut: the accepted `*[]T` parameters are in-out parameters (kept in parameter order).
+func (t *fn) addPtrSliceInOut(sig *types.Signature) {
+	if len(t.ptrSlice) == 0 {
+		return
+	}
+	var all []*types.Var
+	for i := 0; i < sig.Params().Len(); i++ {
+		p := sig.Params().At(i)
+		if t.inoutSet[p] {
+			all = append(all, p)
+		} else if _, ok := t.ptrSlice[p]; ok {
+			all = append(all, p)
+			t.inoutSet[p] = true
+		}
+	}
+	t.inout = all
+}
+
+// structListParser / structListPrinter: Lean terms for the kind "slist:Name:f=code;…" (see structListCode).
+func structListParser(code string, inst map[string]string) string {
+	name, fields, ok := structFields("struct:" + code[len("slist:"):])
+	if !ok {
+		return ""
+	}
+	var as, ps, vs, inits, nones []string
+	for i, f := range fields {
+		pr := parserFor(f[1], inst)
+		if pr == "" {
+			return ""
+		}
+		as = append(as, fmt.Sprintf("t%d", i))
+		ps = append(ps, fmt.Sprintf("%s t%d", pr, i))
+		vs = append(vs, fmt.Sprintf("some w%d", i))
+		inits = append(inits, fmt.Sprintf("%s := w%d", f[0], i))
+		nones = append(nones, "_")
+	}
+	return fmt.Sprintf("GoSem.parseList (fun s => match s.splitOn \"/\" with | [%s] => (match %s with | %s => some ({ %s } : %s) | %s => none) | _ => none)",
+		strings.Join(as, ", "), strings.Join(ps, ", "), strings.Join(vs, ", "), strings.Join(inits, ", "), name, strings.Join(nones, ", "))
+}
+
+func structListPrinter(code string, inst map[string]string) string {
+	_, fields, ok := structFields("struct:" + code[len("slist:"):])
+	if !ok {
+		return ""
+	}
+	var shows []string
+	for _, f := range fields {
+		pr := printerFor(f[1], inst)
+		if pr == "" {
+			return ""
+		}
+		shows = append(shows, fmt.Sprintf("%s x.%s", pr, f[0]))
+	}
+	return "GoSem.showList (fun x => \"/\".intercalate [" + strings.Join(shows, ", ") + "])"
+}
